@@ -52,6 +52,12 @@ options={"part":"diagonal"}'''),
 m=tpmesh("quadrilateral"); V=FunctionSpace(m,tp("quadrilateral",2)); u,v=TrialFunction(V),TestFunction(V); f=Coefficient(V)
 objs=[f*inner(grad(u),grad(v))*dx]
 options={"sum_factorization":True}'''),
+    # tables with the same name and shape but different values in one module (element variants)
+    _c("c18_same_table_names_different_values", '''
+m=mesh("triangle")
+V1=FunctionSpace(m,el("P","triangle",3,lagrange_variant=basix.LagrangeVariant.equispaced)); u1,v1=TrialFunction(V1),TestFunction(V1); f1=Coefficient(V1)
+V2=FunctionSpace(m,el("P","triangle",3,lagrange_variant=basix.LagrangeVariant.gll_warped)); u2,v2=TrialFunction(V2),TestFunction(V2); f2=Coefficient(V2)
+objs=[u1*v1*dx(degree=6), u2*v2*dx(degree=6), f1*v1*dx(degree=6) + f1*v1*ds(degree=6), f2*v2*dx(degree=6) + f2*v2*ds(degree=6)]'''),
     _c("c18_negative_literals", '''
 m=mesh("triangle"); V=space(m,"P",1); v=TestFunction(V); f=Coefficient(V)
 objs=[(-2.0*f - (-3.5) + f*(-1.0) - -f*f/(-0.5))*v*dx]'''),
